@@ -38,7 +38,10 @@ Inductive c04case :=
    status 0 = proved equal to the hand-written model, 1 = the equivalence proof no
    longer checks (the code says something else now), 2 = the source uses a
    construct outside the translator's subset (tie broken, never skipped) *)
-| CGen (name : Z) (status : Z).
+| CGen (name : Z) (status : Z)
+(* server stream object with a transport whose writes fail where the program says
+   (wok = false): per-call results and the envelopes that REACHED the transport's peer *)
+| CStreamW (ops : list (sop Z Z Z * bool)) (obs_res : list Z) (obs_envs : list (Z * list Z * list Z)).
 
 Fixpoint reorder (order : list bytes) (m : mdmap) : mdmap :=
   match order with
@@ -132,8 +135,33 @@ Definition spec_same (sent got : mdmap) : bool :=
                        | _ => existsb (fun e' => bytes_eqb (lower (fst e')) (fst e)) sent
                        end) got.
 
+(* header tokens the object retains, from the observed results alone: SetHeader
+   accepted (0), SendHeader accepted (0) or failed in the write (3) *)
+Fixpoint retained_obs (ops : list (sop Z Z Z * bool)) (res : list Z) : list Z :=
+  match ops, res with
+  | (SetHeader md, _) :: o, 0 :: r => md :: retained_obs o r
+  | (SendHeader md, _) :: o, 0 :: r => md :: retained_obs o r
+  | (SendHeader md, _) :: o, 3 :: r => md :: retained_obs o r
+  | _ :: o, _ :: r => retained_obs o r
+  | _, _ => []
+  end.
+
+(* under write failures: at most one delivered envelope carries header tokens,
+   and then all the retained ones; at most one trailer envelope *)
+Definition spec_faults (ops : list (sop Z Z Z * bool)) (res : list Z) (envs : list (Z * list Z * list Z)) : bool :=
+  (match filter (fun e => match snd (fst e) with [] => false | _ => true end) envs with
+   | [] => true
+   | [e] => list_eqb Z.eqb (snd (fst e)) (retained_obs ops res)
+   | _ => false
+   end)
+  && Nat.leb (length (filter (fun e => Z.eqb (fst (fst e)) 2) envs)) 1.
+
 Definition check (c : c04case) : list nat :=
   match c with
+  | CStreamW ops obs_res obs_envs =>
+      (if list_eqb Z.eqb (map res_code (sresultsw sinit ops)) obs_res then [] else [1%nat]) ++
+      (if list_eqb obs_eqb (map env_obs (sdelivered sinit ops)) obs_envs then [] else [1%nat]) ++
+      (if spec_faults ops obs_res obs_envs then [] else [5%nat])
   | CGen _ status => if Z.eqb status 0 then [] else [1%nat]
   | CCodec mds order obs_kvs obs_md =>
       let m := reorder order (join mds) in
